@@ -419,6 +419,18 @@ remarkable_image(int ck, unsigned char *img, size_t size, uint32_t target, unsig
         ps_sum32_init = v;
         return ps_ref(ck, img, size) == target;
     }
+    if (ck == CK_DEFAULT) {
+        /* a plain sum: 0 means all octets zero, all-ones means the octets add up to 65535 */
+        size_t need = (target & 0xffffu) ? 65535u : 0u;
+        if (need > 255u * size)
+            return 0;
+        for (size_t i = 0; i < size; i++) {
+            size_t take = need > 255 ? 255 : need;
+            img[i] = (unsigned char)take;
+            need -= take;
+        }
+        return ps_ref(ck, img, size) == (target & 0xffffu);
+    }
     if (size < 2)
         return 0;
     for (unsigned v = 0; v < 65536; v++) {
@@ -434,17 +446,17 @@ static void
 u_remarkable(uint64_t idx, void *arg)
 {
     (void)arg;
-    static const size_t sizes[] = { 2, 3, 8, 33, 64 };
-    const size_t size = sizes[idx % 5];
-    const int ck = (int)((idx / 5) % NCK);
-    const int with_aux = (int)((idx / 15) & 1);
-    const size_t auxsize = with_aux ? 1 + (idx / 30) % 7 : 0;
+    static const size_t sizes[] = { 2, 3, 8, 33, 64, 257, 300 };
+    const size_t size = sizes[idx % 7];
+    const int ck = (int)((idx / 7) % NCK);
+    const int with_aux = (int)((idx / 21) & 1);
+    const size_t auxsize = with_aux ? 1 + (idx / 42) % 7 : 0;
     const size_t cks = ps_cksize(ck);
     const uint32_t place = 7;
     ncase = 0;
     for (int tg = 0; tg < 2; tg++) {
         const uint32_t target = tg ? 0xffffffffu : 0u;
-        unsigned char image[64], second[64];
+        unsigned char image[320], second[320];
         ps_sum32_init = 0x12345678u;
         if (!remarkable_image(ck, image, size, target, (unsigned)idx)) {
             VH_COUNT("no image with the wanted checksum found (skipped)");
@@ -482,6 +494,48 @@ u_remarkable(uint64_t idx, void *arg)
         if (rc != PERSISTENT_ACCESS_SUCCESS)
             vh_fail("store-part-rc", key, "%s: rc=%d", ctx, rc);
         expect_valid_state(&st, ck, size, image, key, ctx);
+        /* a different image with the same checksum stored over it: equal checksums do not make equal images */
+        if (size >= 3) {
+            memcpy(second, image, size);
+            int found = 0;
+            if (ck == CK_DEFAULT) {
+                /* move one unit from one octet to another */
+                for (size_t a = 0; a < size && !found; a++)
+                    for (size_t b = 0; b < size && !found; b++)
+                        if (a != b && second[a] < 255 && second[b] > 0) {
+                            second[a]++;
+                            second[b]--;
+                            found = 1;
+                        }
+            } else {
+                second[size - 3] ^= 0x01;
+            }
+            for (unsigned v = 0; v < 65536 && !found; v++) {
+                second[size - 2] = (unsigned char)v;
+                second[size - 1] = (unsigned char)(v >> 8);
+                found = ps_ref(ck, second, size) == ps_ref(ck, image, size);
+            }
+            if (found) {
+                snprintf(ctx, sizeof ctx, "size=%zu auxsize=%zu full store of a different image with the same checksum", size,
+                         auxsize);
+                src = vh_arena_copy(second, size);
+                ps_log_reset();
+                rc = persistent_store(&st, src);
+                if (rc != PERSISTENT_ACCESS_SUCCESS)
+                    vh_fail("store-rc", key, "%s: rc=%d", ctx, rc);
+                expect_valid_state(&st, ck, size, second, key, ctx);
+                vh_countf("image stored over a different image with the same checksum (%s)", ps_ckname[ck]);
+                /* and back through a partial store covering everything that differs */
+                unsigned char *tail = vh_arena_copy(image, size);
+                ps_log_reset();
+                rc = persistent_store_part(&st, tail, 0, size);
+                snprintf(ctx, sizeof ctx, "size=%zu auxsize=%zu partial store leading to a different image with the same checksum",
+                         size, auxsize);
+                if (rc != PERSISTENT_ACCESS_SUCCESS)
+                    vh_fail("store-part-rc", key, "%s: rc=%d", ctx, rc);
+                expect_valid_state(&st, ck, size, image, key, ctx);
+            }
+        }
         /* every single-octet alteration of it */
         for (size_t pos = 0; pos < cks + size; pos++) {
             unsigned char old = ps_medium[pos];
@@ -578,10 +632,12 @@ harness_run(void)
     for (uint64_t i = 0; i < 60; i++)
         if (vh_tier || i % 7 == 0 || i % 10 >= 6)
             vh_unit("big", i, u_big, NULL);
-    for (uint64_t i = 0; i < (vh_tier ? 210u : 30u); i++)
+    for (uint64_t i = 0; i < (vh_tier ? 294u : 42u); i++)
         vh_unit("remarkable", i, u_remarkable, NULL);
     vh_require("image whose checksum is zero stored and validated");
     vh_require("image whose checksum is all-ones stored and validated");
+    vh_require("image stored over a different image with the same checksum (default-sum16)");
+    vh_require("image stored over a different image with the same checksum (crc16-arc)");
     vh_require("large data size 65536");
     vh_require("large data size 70000");
     static const char *req[] = { "set-up history changing the checksum width after the last placement",
